@@ -38,7 +38,7 @@ ASSUMPTIONS = [
     "that rewriting, tied only through the query text of every case",
     "terms: blank nodes, IRIs, plain string literals, language-tagged strings with lower-case tags, xsd:boolean, xsd:integer, "
     "xsd:decimal as sort / group keys and aggregate members (expressions over tagged strings and booleans are modelled but not "
-    "tied; SUM never meets an xsd:boolean: wf sum_bool_free, HEAD raises TypeError there - F-C08i in the notes); (no dates, no doubles, "
+    "tied); (no dates, no doubles, "
     "no other datatypes); sort keys are variables; aggregate arguments are variables or expressions over variables, "
     "constants, unary/binary +/-, comparisons, && || !, IF, binary COALESCE, BOUND (the evaluator eval_t/eval_b is shared "
     "by model and checker: its agreement with rdflib is tied, its agreement with SPARQL 17 is not claimed here); an unbound "
@@ -581,14 +581,6 @@ class C08(Suite):
             if off == 0 and lim is None:
                 lim = 2
             case["slice"] = [off, lim]
-        # wf (sum_bool_free): SUM never meets an xsd:boolean (HEAD raises TypeError there, F-C08i in the notes)
-        if any(t[2][0] == "T" for t in triples):
-            for _, a in case["aggs"]:
-                if a["kind"] == "sum":
-                    a["kind"] = "avg"
-            h = case["having"]
-            if h and "agg" in h and h["agg"]["kind"] == "sum":
-                h["agg"]["kind"] = "avg"
         return case
 
     def gen_agg(self, rng, pv, kinds=KINDS):
